@@ -367,6 +367,8 @@ Crash ==
                   at |-> [pc |-> pc, i |-> IF pc = "rot" THEN ri ELSE 0, pre |-> Pre], disk |-> Snap])
   /\ UNCHANGED <<disk, cur, ri, after, used, W, acked, nextId, nFaults, nRestart, nObst, nEnc, nOverlap, ref, refAct, rolls>>
 
+\* (Append::flush is no action of this module: whenever it is called - the replay calls it right after every build -
+\* it consults no trigger, rolls nothing and changes nothing)
 \* the appender is dropped between appends; Build follows
 Stop ==
   /\ pc = "idle" /\ nRestart < MaxRestart /\ nextId <= MaxRec
